@@ -253,6 +253,38 @@ def access_strings(cap):
     return access
 
 
+def leaf_samples(cap):
+    """for every leaf, the shortest string(s) on which the graph accepts it (by state: `accept` and `early` marks)"""
+    acc = access_strings(cap)
+    out = {}
+    for s_, a in sorted(acc.items(), key=lambda kv: (len(kv[1]), kv[0])):
+        st = cap.states[s_]
+        for key in ('accept', 'early'):
+            l = st.get(key)
+            if l is not None and l >= 0 and a:
+                out.setdefault(l, [])
+                if len(out[l]) < 2 and bytes(a) not in out[l]:
+                    out[l].append(bytes(a))
+    return out
+
+
+def sequence_inputs(cap, utf8, limit=400):
+    """whole tokens next to each other: w·w, w·w·w and w·w·v, w·v, v·w·w for the shortest matches w, v of every pair of leaves
+    (a match repeated directly before the match of another pattern - which may begin with the same text)"""
+    sm = leaf_samples(cap)
+    ws = [w for l in sorted(sm) for w in sm[l]]
+    out = []
+    for w in ws:
+        out += [w + w, w + w + w]
+        for v in ws:
+            if v != w:
+                out += [w + v, w + w + v, v + w + w]
+    out = sorted(set(b for b in out if len(b) <= 24 and (not utf8 or is_valid_utf8(list(b)))))
+    if len(out) > limit:
+        out = out[:: max(1, len(out) // limit)]
+    return out
+
+
 def graph_inputs(cap, utf8, all_bytes=False, max_states=400):
     """transition-directed inputs from the captured graph: access(s)·b and self-loop run lengths"""
     st = cap.states
